@@ -270,6 +270,9 @@ F_C10_step(cfg, pre, post) ==
            IF isArr THEN Len(ias) = 1 /\ Len(bts) = 1 /\ ias[1].n = n /\ ias[1].x = k
                          /\ bts[1].n = n /\ bts[1].x = k
            ELSE ias = <<>> /\ bts = <<>>)
+       \cup Chk("C10.distributions-see-the-current-time", \A a \in DOMAIN post.steps :
+           \* time-dependent distributions are handed the date of the event in which they are sampled
+           post.steps[a].k \in {"ia", "batch", "svc", "pat"} => post.steps[a].f = post.now)
        \cup Chk("C10.batch-size", isArr /\ Len(bts) = 1 => post.created - pre.created = bts[1].y)
        \cup Chk("C10.arrival-dates-partial-sums",
            IF isArr /\ Len(ias) = 1 /\ n \in DOMAIN pre.arr /\ k \in DOMAIN pre.arr[n]
@@ -650,6 +653,9 @@ FirstMinimal(pre, post, a, ds, lb) ==
     IN \A b \in DOMAIN ds : ds[b] = s.d =>
           \A c \in 1..(b-1) : SizeAt(pre, post, a, ds[c], lb) > SizeAt(pre, post, a, s.d, lb)
 
+\* the routing object of class k (classes given the same object share its state, e.g. a Cycle position)
+RouterKey(cfg, k) == IF cfg.route[k].same # 0 THEN cfg.route[k].same ELSE k
+
 \* where reneging customers of class k go from node n: the exit unless the (user-defined) router jockeys
 JockDest(cfg, k, n) ==
     IF cfg.route[k].kind = "nr" /\ cfg.route[k].routers[n].jock # 0 THEN cfg.route[k].routers[n].jock ELSE EXIT
@@ -662,7 +668,8 @@ RouteOk(cfg, pre, post, rt, a) ==
     IN k \in 1..cfg.K /\ s.n \in 1..N /\
        LET r == cfg.route[k]
            \* number of earlier decisions of the same (class, node) router inside this event
-           earlier == Cardinality({b \in 1..(a-1) : post.steps[b].k = "route" /\ post.steps[b].x = k
+           earlier == Cardinality({b \in 1..(a-1) : post.steps[b].k = "route" /\ post.steps[b].x \in 1..cfg.K
+                                                     /\ RouterKey(cfg, post.steps[b].x) = RouterKey(cfg, k)
                                                      /\ post.steps[b].n = s.n /\ post.steps[b].f # 2})
            \* the customer's remaining route before this decision
            rte == IF IsLive(pre, s.i) THEN CuOf(pre, s.i).route
@@ -683,7 +690,7 @@ RouteOk(cfg, pre, post, rt, a) ==
                        MinimalIn(pre, post, a, nr.dests, nr.t = "lb")
                        /\ (nr.tie = "order" => FirstMinimal(pre, post, a, nr.dests, nr.t = "lb"))
                   ELSE \* cycle
-                       s.d = nr.cyc[((rt[k][s.n] + earlier) % Len(nr.cyc)) + 1]
+                       s.d = nr.cyc[((rt[RouterKey(cfg, k)][s.n] + earlier) % Len(nr.cyc)) + 1]
           ELSE IF r.kind = "pb" THEN
                (IF rte = <<>> THEN s.d = EXIT ELSE s.d = rte[1][1])
                /\ (IsLive(post, s.i) /\ earlier = 0 /\ rte # <<>> => CuOf(post, s.i).route = Tail(rte))
@@ -794,7 +801,7 @@ F_C13_step(cfg, pre, post) ==
     IN Chk("C13.patience-sampled-at-arrival", \A a \in IdxOf(post, "pat") :
              LET s == post.steps[a]
              IN IsLive(post, s.i) /\ CuOf(post, s.i).loc = s.n /\ CuOf(post, s.i).arr = post.now
-                => CuOf(post, s.i).rdate = post.now + s.y \/ CuOf(post, s.i).rdate = INF)
+                => CuOf(post, s.i).rdate = post.now + s.y)
        \cup Chk("C13.accept-draws-patience", \A a \in IdxOf(post, "accept") :
              LET s == post.steps[a]
                  has == s.n \in 1..cfg.N /\ IsLive(post, s.i) /\ CuOf(post, s.i).ocls \in 1..cfg.K
@@ -1131,7 +1138,8 @@ GbFold(steps, a, gb) ==
 \* cycle-router decision counters after an event
 RtAfter(cfg, post, rt) ==
     [k \in 1..cfg.K |-> [n \in 1..cfg.N |->
-        rt[k][n] + Cardinality({a \in IdxOf(post, "route") : post.steps[a].x = k /\ post.steps[a].n = n
+        rt[k][n] + Cardinality({a \in IdxOf(post, "route") : post.steps[a].x \in 1..cfg.K
+                                                               /\ RouterKey(cfg, post.steps[a].x) = k /\ post.steps[a].n = n
                                                                /\ post.steps[a].f # 2})]]
 
 \* observer: attachment intervals.  att = <<node, server, since>> of current attachments
